@@ -83,13 +83,21 @@ def placements(n, forms=('a', 'b')):
         yield [('a', True)] + list(rest)
 
 
-def line_names(place):
-    return [f'{f}.{k + 1}' for k, (f, _) in enumerate(place)]
+NAMINGS = {
+    'plain': lambda k: str(k + 1),
+    # names with identical natural sort keys (sort_keys ignores punctuation): a scheduler that confuses
+    # lines with equal keys is exposed
+    'collide': lambda k: ['1', '_1', '1_', '1__'][k],
+}
 
 
-def ops_for(place, k, rich=True):
+def line_names(place, naming='plain'):
+    return [f'{f}.{NAMINGS[naming](k)}' for k, (f, _) in enumerate(place)]
+
+
+def ops_for(place, k, rich=True, naming='plain'):
     """op alphabet for line k of a placement (simplest first)"""
-    names = line_names(place)
+    names = line_names(place, naming)
     own = place[k][0]
     other = 'b' if own == 'a' else 'a'
     ops = [('RI', 'p'), ('RI', 'q')]
@@ -140,17 +148,19 @@ def reachable(prog):
     return dem
 
 
-def programs(n, kmax_per_line, total_ops=None, rich=True, forms=('a', 'b')):
+def programs(n, kmax_per_line, total_ops=None, rich=True, forms=('a', 'b'), naming='plain', place_filter=None):
     """all programs with n lines; kmax_per_line: int; total_ops caps sum of body lengths.
     Programs with a syntactically unreachable line are skipped (they behave as a smaller program)."""
     for place in placements(n, forms):
-        alph = [ops_for(place, k, rich) for k in range(n)]
+        if place_filter is not None and not place_filter(place):
+            continue
+        alph = [ops_for(place, k, rich, naming) for k in range(n)]
         bylen = [{L: [list(b) for b in itertools.product(alph[k], repeat=L)] for L in range(kmax_per_line + 1)}
                  for k in range(n)]
         lens = [lv for lv in itertools.product(range(kmax_per_line + 1), repeat=n)
                 if total_ops is None or sum(lv) <= total_ops]
         for combo in (c for lv in lens for c in itertools.product(*[bylen[k][lv[k]] for k in range(n)])):
-            prog = [dict(form=place[k][0], name=str(k + 1), req=place[k][1], body=combo[k]) for k in range(n)]
+            prog = [dict(form=place[k][0], name=NAMINGS[naming](k), req=place[k][1], body=combo[k]) for k in range(n)]
             if len(reachable(prog)) < n:
                 continue
             yield prog
